@@ -519,6 +519,49 @@ func (k *c06) craftedIdentifiers() {
 	k.r.NonTrivial("crafted-identifiers")
 }
 
+// flat repetition: plain statements in which one construct is repeated side by side (not nested) more often than any nesting
+// bound of the parser: many relations, assignments, values, tuple elements, batch children. They are built only from
+// literals, bind markers and set/map additions, so they are idempotent however long they are.
+func (k *c06) flatRepetition(quick bool) {
+	rels := []string{"a = 1", "(a, b) = (1, 2)", "(a, b) IN ((1, 2), (3, 4))", "(a) > (1)", "a IN (1, 2, ?)", "a = [1, 2]", "a = {1: 2}", "a = {x: 1}",
+		"a CONTAINS 'x'", "a = ?", "a = :n", "a[1] = 2", "a = (1, (2, 3))"}
+	assigns := []string{"v = 1", "s = s + {1}", "m = m + {1: 2}", "m[1] = 2", "u = {f: 1, g: 'x'}", "v = ?", "t = (1, 'a')", "u.f = 3", "v = [1, 2, 3]"}
+	counts := []int{1023, 1024, 1025, 1100, 4000}
+	if quick {
+		counts = []int{1025, 1100}
+	}
+	check := func(what string, n int, text string) {
+		sc := map[string]interface{}{"kind": "flat-repetition", "what": what, "n": n}
+		v, err, p := k.classify(text, "flat-repetition", sc)
+		if p {
+			return
+		}
+		k.obs["flat_repetition_statements"]++
+		if !v || err != nil {
+			k.r.Violate(mon.Violation{Signature: "C06/incomplete/flat-repetition/" + what, Detail: fmt.Sprintf("a plain statement that repeats %q %d times side by side (no nesting) is reported not idempotent (verdict=%v err=%v): %s", what, n, v, err, clip(text, 300)),
+				Scenario: sc, Witness: map[string]interface{}{"statement_head": clip(text, 2000), "verdict": v, "error": fmt.Sprint(err)}})
+		}
+	}
+	for _, n := range counts {
+		for _, rel := range rels {
+			check("relation "+rel, n, "UPDATE ks.t SET v = 1 WHERE "+strings.TrimSuffix(strings.Repeat(rel+" AND ", n), " AND "))
+			check("batch of DELETE WHERE "+rel, n, "BEGIN BATCH "+strings.Repeat("DELETE FROM ks.t WHERE "+rel+"; ", n)+"APPLY BATCH")
+		}
+		for _, as := range assigns {
+			check("assignment "+as, n, "UPDATE ks.t SET "+strings.TrimSuffix(strings.Repeat(as+", ", n), ", ")+" WHERE k = 1")
+			check("batch of UPDATE SET "+as, n, "BEGIN UNLOGGED BATCH "+strings.Repeat("UPDATE ks.t SET "+as+" WHERE k = 1 ", n)+"APPLY BATCH;")
+		}
+		cols := strings.TrimSuffix(strings.Repeat("c, ", n), ", ")
+		for _, val := range []string{"1", "'x'", "?", "(1, 2)", "[1]", "{1: 2}", "{f: 1}"} {
+			check("insert value "+val, n, "INSERT INTO ks.t ("+cols+") VALUES ("+strings.TrimSuffix(strings.Repeat(val+", ", n), ", ")+")")
+			check("tuple element "+val, n, "INSERT INTO ks.t (k, v) VALUES (1, ("+strings.TrimSuffix(strings.Repeat(val+", ", n), ", ")+"))")
+			check("IN list element "+val, n, "DELETE FROM ks.t WHERE k IN ("+strings.TrimSuffix(strings.Repeat(val+", ", n), ", ")+")")
+		}
+		check("batch of INSERT", n, "BEGIN BATCH "+strings.Repeat("INSERT INTO ks.t (k, v) VALUES (1, (2, 3)); ", n)+"APPLY BATCH")
+	}
+	k.r.NonTrivial("flat-repetition")
+}
+
 // ---------------------------------------------------------------------------------------------------------------------
 // (d) totality: hostile inputs
 
@@ -849,6 +892,10 @@ func runC06(c *Ctx) {
 		k.craftedDollar()
 		c.Step("crafted-identifiers")
 		k.craftedIdentifiers()
+	}
+	if c.Shard == 1%work {
+		c.Step("flat-repetition")
+		k.flatRepetition(c.Quick())
 	}
 	for b := 0; b*c06Batch < nStmt; b++ {
 		if b%work != c.Shard {
